@@ -18,6 +18,8 @@ PROP = {
             "Sonic.Props.C09.C09_pending_invisible",
             "Sonic.Props.C09.C09_reserve_total_false",
             "Sonic.Props.C09.C09_reserve_panic_untouched",
+            "Sonic.Props.C09.C09_held_completion_commutes",
+            "Sonic.Lemmas.ByteBufferHeld.held_step",
         ],
         "runs": [{
             "component": "bytebuffer",
